@@ -8,6 +8,7 @@ mod ctx;
 mod graph;
 mod rng;
 mod runner;
+mod worker;
 
 use ctx::{Ctx, Tier};
 
